@@ -32,7 +32,7 @@ class _FakeFile:
         self.log.add("closed")
 
 
-def run_main(lines, cleanup=None):
+def run_main(lines, cleanup=None, warn_raises=False, failing=()):
     """Run the real main() over `lines` (bytes). Returns the event log:
     ('clean', rtype, name) / ('hook', exc type name) / ('warn', text) /
     ('signal', signum, handler) / ('eof',)"""
@@ -41,7 +41,11 @@ def run_main(lines, cleanup=None):
     real_signal = rt.signal
 
     def mk(rtype):
-        return lambda name: log.add("clean", rtype, name)
+        def clean(name):
+            log.add("clean", rtype, name)
+            if (rtype, name) in failing:
+                raise FileNotFoundError(name)  # the resource is already gone / cannot be removed
+        return clean
 
     rt._CLEANUP_FUNCS = {k: mk(k) for k in saved[0].keys()}
     if cleanup:
@@ -56,7 +60,11 @@ def run_main(lines, cleanup=None):
                    SIGTERM=real_signal.SIGTERM, SIG_IGN=real_signal.SIG_IGN,
                    SIG_UNBLOCK=real_signal.SIG_UNBLOCK,
                    pthread_sigmask=lambda how, sigs: log.add("sigmask", int(how)))
-    rt.warnings = NS(warn=lambda msg, *a, **k: log.add("warn", str(msg)[:60]))
+    def warn(msg, *a, **k):
+        log.add("warn", str(msg)[:60])
+        if warn_raises:
+            raise UserWarning(msg)  # the tracker inherits -W error / PYTHONWARNINGS=error from its parent
+    rt.warnings = NS(warn=warn)
     rt.open = lambda fd, mode: _FakeFile(lines, log)
     try:
         rt.main(99)
@@ -212,3 +220,42 @@ def check_signals_before_read(n: int) -> bool:
     want = {(int(signal.SIGINT), signal.SIG_IGN), (int(signal.SIGTERM), signal.SIG_IGN)}
     return {(e[1], e[2]) for e in sig} == want and all(i < first_read for i in idx) and \
         log.count("clean", "file", "a") == (1 if n else 0)
+
+
+def check_failing_cleanup(cmds: List[int], fails: bool, warn_raises: bool, left: int) -> bool:
+    """
+    pre: len(cmds) <= 3 and all(0 <= c <= 2 for c in cmds) and 0 <= left <= 2
+    pre: not (fails and warn_raises)
+    post: _
+    """
+    # history on one name whose destruction *fails* at the zeroing request (file already removed by its owner),
+    # followed by up to 3 more requests on that name, with `left` other resources still counted at end-of-life;
+    # warnings may be exceptions in the tracker process.  The counts follow the reference model whatever the
+    # cleanup function does, and the end-of-life sweep destroys everything still counted - warnings or not.
+    # (A failing cleanup *and* raising warnings together are outside: the warning about the failure then aborts
+    # the request / the sweep on the unchanged code too.)
+    left = _conc(left, 2)
+    ref = Ref()
+    lines = []
+    for cmd in ("REGISTER", "MAYBE_UNLINK"):
+        lines.append(_line(cmd, NAMES[0], "file"))
+        ref.request(cmd, NAMES[0], "file")
+    for c in cmds:
+        cmd = CMDS[_conc(c, 2)]
+        lines.append(_line(cmd, NAMES[0], "file"))
+        ref.request(cmd, NAMES[0], "file")
+    for j in range(left):
+        t = ("semlock", "folder")[j]
+        lines.append(_line("REGISTER", NAMES[1], t))
+        ref.request("REGISTER", NAMES[1], t)
+    failing = {("file", NAMES[0])} if fails else set()
+    log = run_main(lines, warn_raises=bool(warn_raises), failing=failing)
+    if warn_raises:
+        # the summary warnings may be lost, the destructions may not
+        eof = [i for i, e in enumerate(log) if e[0] == "eof"]
+        if len(eof) != 1:
+            return False
+        pre = [e for e in log[: eof[0]] if e[0] in ("clean", "hook")]
+        post = sorted(e for e in log[eof[0]:] if e[0] == "clean")
+        return pre == ref.events and post == sorted(e for grp in ref.sweep() for e in grp)
+    return _compare(log, ref)
